@@ -25,9 +25,10 @@ fn clone_breach(b: &Option<BudgetBreach>) -> (r: Option<BudgetBreach>)
     ensures r == *b,
 { unimplemented!() }
 
-// Rc<RefCell<Option<io::Error>>> shared with the char iterator.  `content()` is what a read of the
-// cell at the beginning of the current call yields (interior mutability is outside Verus: the model
-// is only used for "checked once at the start of next/peek/finish").
+// Rc<RefCell<Option<io::Error>>> shared with the char iterator (its only writer, hidden inside the
+// parser).  Interior mutability is made explicit (rule R28): `take` needs `&mut self` here, which every
+// caller has.  The hidden writer is modelled in `next_impl`'s contract: pumping the parser may FILL an
+// empty cell, nothing but `take` empties it.
 #[verifier::external_body]
 pub struct ErrCell { inner: std::rc::Rc<std::cell::RefCell<Option<std::io::Error>>> }
 
@@ -35,9 +36,9 @@ impl ErrCell {
     pub uninterp spec fn content(&self) -> Option<IoError>;
 
     #[verifier::external_body]
-    pub fn take(&self) -> (r: Option<IoError>)
-        ensures r == self.content(),
-    { self.inner.take().map(|e| IoError { inner: e }) }
+    pub fn take(&mut self) -> (r: Option<IoError>)
+        ensures r == old(self).content(), final(self).content() is None,
+    { unimplemented!() }
 }
 
 // derived `Clone` of Ev (assumed lawful)
